@@ -151,6 +151,7 @@ func (idx *hybridSearchIndex) addInternal(id uint32, vector []float32, text stri
 	// Add to text index
 	if idx.textIndex != nil && text != "" {
 		if err := idx.textIndex.Add(id, text); err != nil {
+			idx.rollbackAdd(id, info)
 			return fmt.Errorf("failed to add to text index: %w", err)
 		}
 		info.hasText = true
@@ -160,6 +161,7 @@ func (idx *hybridSearchIndex) addInternal(id uint32, vector []float32, text stri
 	if idx.metadataIndex != nil && metadata != nil && len(metadata) > 0 {
 		metadataNode := NewMetadataNodeWithID(id, metadata)
 		if err := idx.metadataIndex.Add(*metadataNode); err != nil {
+			idx.rollbackAdd(id, info)
 			return fmt.Errorf("failed to add to metadata index: %w", err)
 		}
 		info.hasMetadata = true
@@ -168,6 +170,21 @@ func (idx *hybridSearchIndex) addInternal(id uint32, vector []float32, text stri
 	idx.docInfo[id] = info
 
 	return nil
+}
+
+// rollbackAdd undoes the sub-index additions recorded in info after a later
+// sub-index rejected the document, so that a failed add leaves nothing searchable.
+// Removal errors are ignored: the add error is the one reported to the caller.
+// Must be called with idx.mu held.
+func (idx *hybridSearchIndex) rollbackAdd(id uint32, info *documentInfo) {
+	if info.hasVector {
+		vectorNode := NewVectorNodeWithID(id, nil)
+		_ = idx.vectorIndex.Remove(*vectorNode)
+	}
+
+	if info.hasText {
+		_ = idx.textIndex.Remove(id)
+	}
 }
 
 // Remove removes a document from all indexes.
